@@ -36,6 +36,8 @@ def bounds(tier):
     q = tier == "quick"
     return {"values": f"multisets of 1..{3 if q else 4} items over {ALPHA}, plus sub-multisets of {SPREAD}", "k": "1..3" if q else "1..4 (k=4 for copies/constraints only)",
             "copies": "1, 2, every per-item vector over {0,1,2}", "weights": "{1,2,3}^k", "constraints": "eq0 / le_last / ge0 for every c in 0..total+1",
+            "four bins": f"multisets of 3..{4 if q else 5} items over (1,2,3,5,6), k=4, five objectives unweighted + 4 unequal weight vectors x 3 objectives",
+            "gap": f"multisets of 4..{5 if q else 6} items over (1,5,7,9), k=3, weights (1,3,4),(2,3,5),(1,2,7),(3,4,5) x difference / 2-largest / 2-smallest",
             "statuses": "all 12 members of mip.OptimizationStatus"}
 
 
@@ -63,6 +65,12 @@ def tasks(tier):
         ts.append(("status", ch, (2,)))
     for ch in spaces.chunked([v for v in vs if len(v) <= 3][:20], 4):
         ts.append(("dict", ch, (2, 3)))
+    # four bins: the middle bins are ordered only by the chain of consecutive constraints; multi-bin objectives and unequal weights
+    for ch in spaces.chunked([v for v in spaces.multisets((1, 2, 3, 5, 6), 3, 4 if q else 5)], 3):
+        ts.append(("four", ch, (4,)))
+    # larger weights whose pairwise lcm exceeds the largest weight, multi-bin objectives, values up to 9
+    for ch in spaces.chunked(list(spaces.multisets((1, 5, 7, 9), 4, 5 if q else 6)), 3):
+        ts.append(("gap", ch, (3,)))
     return ts
 
 
@@ -251,6 +259,16 @@ def run_task(task):
                         _judge(acc, values, k, "MaximizeSmallestSum", weights=w, cons=["le_last", c], nontrivial=True)
                 _judge(acc, values, k, "MinimizeDifference", copies=2, weights=tuple(range(1, k + 1)), nontrivial=True)
                 _judge(acc, values, k, "MinimizeDifference", cons=[["ge0", 1], ["le_last", total]], nontrivial=True)
+            elif scope == "four":
+                for spec in OBJ5:
+                    _judge(acc, values, k, spec, nontrivial=True)
+                for w in ((1, 2, 3, 1), (2, 1, 1, 3), (1, 1, 2, 2), (3, 2, 1, 1)):
+                    for spec in ("MinimizeDifference", "MaximizeSmallestSum", "MinimizeKLargestSums(2)"):
+                        _judge(acc, values, k, spec, weights=w, nontrivial=True)
+            elif scope == "gap":
+                for w in ((1, 3, 4), (2, 3, 5), (1, 2, 7), (3, 4, 5)):
+                    for spec in ("MinimizeDifference", "MinimizeKLargestSums(2)", "MaximizeKSmallestSums(2)"):
+                        _judge(acc, values, k, spec, weights=w, nontrivial=True)
             elif scope == "status":
                 _status(acc, values, k)
             else:  # dict / names formats: per-item copies are exact on names
